@@ -154,23 +154,25 @@ EXTRA = {
 }
 # round-4 additions: obligations imported from the rule set of the property that anchors a shared mechanism (tool/an/scope.go)
 IMPORTS = {
- "C01": "receive limit read per accepted connection (from C16); stream single-reader rule (handshake and Recv read one source)",
+ "C01": "receive limit read per accepted connection (from C16); stream single-reader rule (handshake and Recv read one source); every request id carries the end-of-backtrace bit (from C03)",
  "C02": "guarded-by (E3) of core attach/detach and PAIR/PUSH state (from C11), send-contract and ownership (from C17), attach/detach exactly once (from C13)",
  "C03": "request-state transitions and pipe-loss decision (from C04), guarded-by (from C11)",
- "C04": "exact comparison of RemovePipe's resend/cancel decision with its specification over a finite domain; queued-flag/sendQ pairing on every path; id-table writers (from C03), guarded-by (from C11)",
- "C05": "id-allocator freshness (counter advanced before an id is returned), guarded-by (from C11), ownership (from C17)",
- "C06": "queue/recorded-length agreement and inheritance (from C19), guarded-by (from C11)",
- "C07": "queue direction = option direction and inheritance (from C19), guarded-by (from C11)",
- "C08": "allocator never yields 0 (from C13), guarded-by (from C11)",
- "C09": "STAR forwards private copies with intact hop header (from C08)",
- "C10": "own-closed-observed (every SendMsg/RecvMsg of an object with its own closed flag tests it), capacity>=1 where a goroutine re-fills under the lock (from C19)",
+ "C04": "send-contract of the stream transports (from C17); exact comparison of RemovePipe's resend/cancel decision with its specification over a finite domain; queued-flag/sendQ pairing on every path; id-table writers (from C03), guarded-by (from C11)",
+ "C05": "end-of-backtrace test evaluated for boundary words in all four receivers; request-id marker (from C03); id-allocator freshness (counter advanced before an id is returned), guarded-by (from C11), ownership (from C17)",
+ "C06": "queue/recorded-length agreement and inheritance (from C19), guarded-by incl. map aliases (from C11), send-contract of the stream transports (from C17)",
+ "C07": "queue direction = option direction and inheritance (from C19), guarded-by incl. map aliases used outside their lock (from C11), fresh backing per message (from C17)",
+ "C08": "allocator never yields 0 (from C13), guarded-by (from C11), queue direction = option direction (from C19)",
+ "C09": "STAR forwards private copies with intact hop header (from C08); hop limit read on the same side of the blocking receive as its use (from C19); forwarded message intact after a failed send (from C17)",
+ "C10": "protocol closed before the pipe sweep in socket.Close; own-closed-observed (every SendMsg/RecvMsg of an object with its own closed flag tests it), capacity>=1 where a goroutine re-fills under the lock (from C19)",
  "C11": "message ownership, send-contract, fresh backing per message (from C17)",
- "C12": "queue/recorded-length agreement (from C19), back-off and redial-after-loss (from C14)",
- "C13": "pipe listed before it can be attached; ErrClosed-only-for-own-closed-state and endpoint-usable (from C12), handshake validation (from C16)",
- "C14": "dialer registration atomic with the socket's closed state (from C10: NewDialer closed path, E3b)",
- "C16": "channel typestate E10a/E10b — no send can reach a channel a concurrent close may have closed (from C11), websocket sub-protocol match exact (from C15)",
- "C18": "context inherits each deadline from the socket's same deadline (from C19)",
- "C19": "MaxReconnectTime 0 disables back-off, otherwise caps it (from C14)",
+ "C12": "queue/recorded-length agreement (from C19), back-off and redial-after-loss (from C14), lock-order graph E2 (from C11)",
+ "C13": "read-only pipe options set from the datum of their own kind; pipe listed before it can be attached; ErrClosed-only-for-own-closed-state and endpoint-usable (from C12), handshake validation (from C16)",
+ "C14": "retry decision compared exactly with its specification over a finite domain; every growth of a list a Cond.Wait loop waits on is followed by a wake-up on every path; dialer registration atomic with the socket's closed state (from C10: NewDialer closed path, E3b)",
+ "C16": "ws receive limit read back as the stored type (from C19), no cross-peer pollution via ownership rules in all protocols (from C17), channel typestate E10a/E10b — no send can reach a channel a concurrent close may have closed (from C11), websocket sub-protocol match exact (from C15)",
+ "C18": "context inherits each deadline from the socket's same deadline (from C19); no blocking wait under a socket lock (E4, from C12); xpush immediate ErrNoPeers compared exactly",
+ "C19": "MaxReconnectTime 0 disables back-off, otherwise caps it (from C14); ws option values read back as the stored type; ipc option values stored with the flag that gates them in Listen",
+ "C15": "send-contract and ownership in the stream transports (from C17)",
+ "C17": "Recv copies the body before the message is released (from C01)",
  "C20": "main exits non-zero on every path after a failed Run (must-pass); send-interval sentinel tested as < 0",
 }
 for k, (t, x) in EXTRA.items():
